@@ -124,6 +124,8 @@ func scenC19(r *Run) {
 		seq := sim.Event("unsubscribed", id, topic, len(messages))
 		unsubAt[id+"|"+topic] = append(unsubAt[id+"|"+topic], seq)
 		unsubEvents = append(unsubEvents, c19unsub{id, topic, seq, sim.Now()})
+		// a hook takes its time: whatever is published meanwhile must be refused or end up somewhere
+		verifsim.Yield(-77)
 	}
 	// every poll ('<') as the broker sees it, for both levels
 	var bpolls []*c19poll
